@@ -90,6 +90,13 @@ def slotted(  # noqa: C901
         cls_dict = {**cls.__dict__}
         # Create only missing slots
         inherited_slots = set().union(*(getattr(c, "__slots__", ()) for c in cls.mro()))
+        # A base class without `__slots__` already provides `__dict__` and `__weakref__`.
+        inherited_slots.update(
+            slot
+            for c in cls.mro()[1:]
+            for slot in ("__dict__", "__weakref__")
+            if slot in vars(c)
+        )
 
         field_names = {f.name: ... for f in dataclasses.fields(cls) if f.name}
         if dict:
